@@ -48,6 +48,8 @@ type Case struct {
 	Overlap bool   `json:"overlap,omitempty"`  // T2 touches the row T1 holds
 	T1Ends  string `json:"t1_ends,omitempty"`  // commit | rollback
 	T2Shape string `json:"t2_shape,omitempty"` // "" (WHERE id = ?) | order-limit (… ORDER BY v DESC LIMIT 1: the row read is not the first in key order)
+	// T2Keep: T2's caller ignores the refused statement, carries on and commits its local transaction
+	T2Keep  bool   `json:"t2_keep,omitempty"`
 	T1Phase string `json:"t1_phase,omitempty"` // committed (local commit done, global lock held) | open (local transaction open: local row lock held, no global lock yet)
 }
 
@@ -447,6 +449,7 @@ func runOverlap(c Case) *pt.Failure {
 	var t2Err error
 	var t2Rows []string
 	var t2Res atenv.BranchResult
+	t2Committed := false
 	locksAfterT2 := map[int]int{}
 	locksInT2 := map[int][]string{}
 	var t1res atenv.BranchResult
@@ -502,7 +505,7 @@ func runOverlap(c Case) *pt.Failure {
 			default:
 				stmts = append(stmts, atenv.StmtText{SQL: "UPDATE " + tn + " SET v = v + 5 WHERE id = ?", Args: []interface{}{t2Row}})
 			}
-			t2Res = atenv.RunBranchOpt(cx2, env.AT, atenv.BranchOpts{Mode: c.T2Mode, Via: "db", Probe: func(i int, r atenv.StmtResult) {
+			t2Res = atenv.RunBranchOpt(cx2, env.AT, atenv.BranchOpts{Mode: c.T2Mode, Via: "db", KeepGoing: c.T2Keep && c.T2Mode == "tx", Probe: func(i int, r atenv.StmtResult) {
 				// the local row locks inside T2's still open local transaction, right after its last statement
 				if i == len(stmts)-1 {
 					locksInT2 = env.Srv.LockedRows()
@@ -514,6 +517,9 @@ func runOverlap(c Case) *pt.Failure {
 			t2Rows = t2Res.Stmts[len(t2Res.Stmts)-1].Rows
 			return nil
 		})
+		if c.T2Keep && c.T2Mode == "tx" && t2Res.BeginErr == "" && t2Res.CommitErr == "" {
+			t2Committed = true
+		}
 		locksAfterT2 = env.Srv.RowLocks()
 		if c.T1Ends == "rollback" {
 			return errT1End
@@ -598,6 +604,28 @@ func runOverlap(c Case) *pt.Failure {
 				return pt.Failf("C03/overlap/rows-differ", "locking read returned %v, the table has %v\n%s", t2Rows, r, info)
 			}
 		}
+	}
+	if t2Committed {
+		// T2 carried on after the refused statement and committed: its earlier write (row 3) is durable, and then
+		// its lock key must have been registered before that commit
+		v3 := int64(-1)
+		for _, r := range env.Srv.Rows(atenv.Schema, tn) {
+			if id, _ := r["id"].(int64); id == 3 {
+				v3, _ = r["v"].(int64)
+			}
+		}
+		if v3 != 30 {
+			registered := false
+			for _, e := range env.TC.Events() {
+				if b, ok := e.Body.(message.BranchRegisterRequest); ok && e.Dir == "c2s" && lockRows(b.LockKey)[strings.ToUpper(tn)+":3"] {
+					registered = true
+				}
+			}
+			if !registered {
+				return pt.Failf("C03/overlap/missing-lock-key-after-refused-statement/"+c.T2Kind, "T2 ignored the refused statement and committed its earlier write (row 3 v=%d), no branch registration names %s:3\n%s", v3, strings.ToUpper(tn), info)
+			}
+		}
+		return nil
 	}
 	// T2's write to a row locked by T1 never reached COMMIT: T2's effects are absent
 	if c.Overlap && c.T2Kind != "select_for_update" {
@@ -703,7 +731,7 @@ func TestPropOverlap(t *testing.T) {
 			T2Mode: rapid.SampledFrom([]string{"auto", "tx"}).Draw(rt, "t2mode"), Overlap: rapid.Bool().Draw(rt, "overlap"),
 			T1Ends:  rapid.SampledFrom([]string{"commit", "rollback"}).Draw(rt, "t1ends"),
 			T1Phase: rapid.SampledFrom([]string{"committed", "committed", "open"}).Draw(rt, "t1phase"),
-			T2Shape: rapid.SampledFrom([]string{"", "", "order-limit"}).Draw(rt, "t2shape")}
+			T2Shape: rapid.SampledFrom([]string{"", "", "order-limit"}).Draw(rt, "t2shape"), T2Keep: rapid.IntRange(0, 3).Draw(rt, "t2keep") == 0}
 		if c.T1Kind == "delete" && c.Overlap && c.T2Kind != "select_for_update" {
 			c.T2Kind = "select_for_update" // the row is gone for T2's write; a locking read still has to ask
 		}
